@@ -497,6 +497,9 @@ impl TypeChecker {
         scope: ScopeRef,
         name: ResolvedName,
     ) -> Result<(), String> {
+        if !self.type_info.scope_graph.declarations.contains_key(&name) {
+            return Err(format!("Cannot find the item `{}`", name.ident));
+        }
         if self
             .type_info
             .scope_graph
